@@ -1,6 +1,7 @@
 /- C07 — translation-time constant evaluation equals run-time evaluation.
 
-   `Gen.ConstEval.eval2` is the translation of parse.c `eval2`/`eval3`/`eval_truth` (clang-typed, regenerated on every run);
+   `Gen.ConstEval.eval2` / `evalDouble` are the translation of parse.c `eval2`/`eval3`/`eval_truth`/`eval_double`/`eval_double2`
+   (clang-typed, regenerated on every run; `fp : FpEnv` is the host's floating arithmetic, Model/HostFp.lean);
    `elabE` is the tree the parser and `add_type` build for an expression; `Spec.Const.eval` is the C11 value
    (`none` where C11 gives none); `img v` is the `int64_t` holding the value `v`.
    Values are stated for the wrapping host (`HostMode.wrapping`: signed overflow of the *host* arithmetic wraps, as in
@@ -15,8 +16,8 @@ open ChibiVerif.Host ChibiVerif.Gen.ConstEval ChibiVerif.Spec.Const ChibiVerif.C
 /-- **Folding equals the C11 value.**  For every integer constant expression `e` (every operator, cast to every integer type
     and `_Bool`, literal of every type, any depth, every operand value) that has a C11 value `v`: the value lies in the range
     of the C11 type of `e`, and the folder returns exactly the `int64_t` image of `v` — the value the same expression has
-    at run time under C11 typing.  Holds for every floating-evaluation environment (`fp` is never consulted) and with or
-    without a relocation label. -/
+    at run time under C11 typing.  Holds for every host floating arithmetic `fp` (an integer constant expression never
+    consults it) and with or without a relocation label. -/
 theorem C07_fold (fp : FpEnv) (e : CExpr) (v : Int) (h : Spec.Const.eval e = some v) :
     (typeOf e).inRange v = true ∧ ∀ label, eval2 .wrapping fp (elabE e) label = .ok (BitVec.ofInt 64 v) :=
   fold_main fp e v h
@@ -40,11 +41,11 @@ theorem C07_undefined_diag (fp : FpEnv) (a b : CExpr) (x y : Int) (op : BinOp) (
   rcases hop with h | h <;> subst h
   · refine ⟨by simp [Spec.Const.eval, ha, hb, BinOp.isShift, binop, hz], fun label => ?_⟩
     simp only [elabE, mkArith, bin, elab_ty, gct_descr]
-    rw [eval2_DIV _ _ _ _ _ _ _ _ _ _ (descr_not_flonum _)]
+    rw [eval2_DIV _ _ _ _ _ _ _ _ _ _ _ (descr_not_flonum _)]
     simp only [hl, hr, bind, Except.bind, divmod]; rfl
   · refine ⟨by simp [Spec.Const.eval, ha, hb, BinOp.isShift, binop, hz], fun label => ?_⟩
     simp only [elabE, mkArith, bin, elab_ty, gct_descr]
-    rw [eval2_MOD _ _ _ _ _ _ _ _ _ _ (descr_not_flonum _)]
+    rw [eval2_MOD _ _ _ _ _ _ _ _ _ _ _ (descr_not_flonum _)]
     simp only [hl, hr, bind, Except.bind, divmod]; rfl
 
 example : (ITy.common (typeOf (.lit .i32 1)) (typeOf (.bin .sub (.lit .u8 2) (.lit .i64 2)))).convert 0 = 0 := by decide
@@ -83,9 +84,9 @@ theorem C07_division_total (fp : FpEnv) (a b : CExpr) (x y : Int)
   have hx := convert_inRange t x
   have hy := convert_inRange t y
   constructor
-  · rw [eval2_DIV _ _ _ _ _ _ _ _ _ _ (descr_not_flonum _)]
+  · rw [eval2_DIV _ _ _ _ _ _ _ _ _ _ _ (descr_not_flonum _)]
     simp only [hl, hr, bind, Except.bind, pure, Except.pure, divmod_div t _ _ hw hx hy hz, wrap_convert t hw.ne_bool]
-  · rw [eval2_MOD _ _ _ _ _ _ _ _ _ _ (descr_not_flonum _)]
+  · rw [eval2_MOD _ _ _ _ _ _ _ _ _ _ _ (descr_not_flonum _)]
     simp only [hl, hr, bind, Except.bind, pure, Except.pure, divmod_mod t _ _ hw hx hy hz, wrap_convert t hw.ne_bool,
       convert_id t _ (tmod_inRange t _ _ hw hx hy)]
 
@@ -106,41 +107,87 @@ example : Spec.Const.eval (.bin .mod (.lit .i32 7) (.lit .i32 4)) = some 3 := by
 example : Spec.Const.eval (.lor (.lit .i32 1) (.cond (.bin .div (.lit .i32 1) (.lit .i32 0)) (.lit .i32 1) (.lit .i32 2))) = some 1 := by
   decide
 
-/-- **Constness (sound)**: on *any* node tree (not only elaborated ones), if `is_const_expr` accepts it then folding it
-    never answers "not a compile-time constant" — the predicate that decides array-vs-VLA never lets the folder reach an arm
-    it cannot fold.  (`FpClean`: the abstract floating evaluator does not produce that diagnostic itself.) -/
-theorem C07_constness_sound (fp : FpEnv) (hfp : FpClean fp) (n : CNode) (h : isConstExpr .wrapping fp n = .ok true)
-    (label : Bool) : eval2 .wrapping fp n label ≠ .error (.diag "not a compile-time constant") :=
-  const_no_ncc fp hfp n h label
+/-- **Constness (sound)**: on *any* node tree of arithmetic type (not only elaborated ones: `ArithTyped` says that every node
+    has integer or floating type and that a node of floating type is one of `+ - * /`, unary `-`, `?:`, `,`, cast, constant —
+    what `add_type` guarantees), if `is_const_expr` accepts it then folding it — as an integer through `eval2` or as a
+    floating value through `eval_double` — never answers "not a compile-time constant": the predicate that decides
+    array-vs-VLA never lets the folder reach an arm it cannot fold.  (`FpZeroExact`: the host's `long double` made from an
+    integer compares equal to 0 exactly when the integer is 0, so that `eval_truth` and `eval_double(cond) ? :` select the
+    same operand.) -/
+theorem C07_constness_sound (fp : FpEnv) (hfp : FpZeroExact fp) (n : CNode) (hn : ArithTyped n = true)
+    (h : isConstExpr .wrapping fp n = .ok true) (label : Bool) :
+    eval2 .wrapping fp n label ≠ .error (.diag "not a compile-time constant") ∧
+    evalDouble .wrapping fp n ≠ .error (.diag "not a compile-time constant") :=
+  ⟨(const_clean fp hfp n hn h).1 label, (const_clean fp hfp n hn h).2⟩
 
-example : FpClean noFp := noFp_clean
-example : isConstExpr .wrapping noFp (elabE (.bin .mod (.lit .i32 7) (.lit .i32 4))) = .ok true := by decide
+example : FpZeroExact noFp := noFp_zeroExact
+example : ArithTyped (elabE (.bin .mod (.lit .i32 7) (.lit .i32 4))) = true ∧
+    isConstExpr .wrapping noFp (elabE (.bin .mod (.lit .i32 7) (.lit .i32 4))) = .ok true := by decide
+
+/-- **Order of evaluation.**  In every binary arm of the generated `eval3` (and of `eval_double2`) the LEFT operand is
+    evaluated first: if it fails, its failure — its diagnostic — is the node's, whatever the right operand is (it is not even
+    looked at); the right operand's failure is reported only when the left operand has a value (`LeftFirst L R N`).  So of two
+    non-constant operands the left one is diagnosed, independently of the compiler that compiled parse.c (the translator
+    refuses a source in which both operands are evaluated inside one expression).  `+` and `-` hand the relocation label to
+    the left operand only (`leftLabel`); a comparison evaluates floating operands with `eval_double`. -/
+theorem C07_fold_order (fp : FpEnv) (ty : CTy) (nv : BitVec 64) (fv : BitVec 80) (l r c t e : CNode) (label : Bool) :
+    (isFlonum ty = false → ∀ k ∈ arithKinds,
+        LeftFirst (eval2 .wrapping fp l (leftLabel k label)) (eval2 .wrapping fp r false)
+          (eval2 .wrapping fp (.mk k ty nv fv l r c t e) label)) ∧
+    (isFlonum ty = false → ∀ k ∈ cmpKinds, ∀ tl, CNode.tyOf l = .ok tl →
+        (isFlonum tl = false → LeftFirst (eval2 .wrapping fp l false) (eval2 .wrapping fp r false)
+            (eval2 .wrapping fp (.mk k ty nv fv l r c t e) label)) ∧
+        (isFlonum tl = true → LeftFirst (evalDouble .wrapping fp l) (evalDouble .wrapping fp r)
+            (eval2 .wrapping fp (.mk k ty nv fv l r c t e) label))) ∧
+    (isInteger ty = false → ∀ k ∈ farithKinds,
+        LeftFirst (evalDouble .wrapping fp l) (evalDouble .wrapping fp r) (evalDouble .wrapping fp (.mk k ty nv fv l r c t e))) :=
+  ⟨fun hf k hk => order_arith fp ty nv fv l r c t e label hf k hk,
+   fun hf k hk tl htl => order_cmp fp ty nv fv l r c t e label hf k hk tl htl,
+   fun hi k hk => order_farith fp ty nv fv l r c t e hi k hk⟩
+
+/-- non-vacuity: `(1/0) + x` is answered with the division diagnostic, `x + (1/0)` with "not a compile-time constant"
+    (`x` a variable: `ND_VAR`), for `+`, `<` and `*` -/
+example :
+    let x : CNode := .mk .ND_VAR tyInt 0 0 .null .null .null .null .null
+    let z : CNode := elabE (.bin .div (.lit .i32 1) (.lit .i32 0))
+    (∀ k ∈ [NodeKind.ND_ADD, .ND_MUL, .ND_LT],
+      eval2 .wrapping noFp (.mk k tyInt 0 0 z x .null .null .null) false = .error (.diag "division by zero in a constant expression") ∧
+      eval2 .wrapping noFp (.mk k tyInt 0 0 x z .null .null .null) false = .error (.diag "not a compile-time constant")) := by decide
 
 /-- **Consumers.**  Each place that stores a folded constant keeps the C11 conversion of the value to the consumer's type:
-    enumerator (`int val`), array bound (`array_of(int len)`), bit-field width, `_Alignas` / `aligned`, array designator
-    bounds, initializer-element counter (all `int`: exact for every value an `int` holds), case labels (`long begin/end`:
-    exact for every `long`), and static initializers (`write_gvar_data`: the object receives the C11 conversion of the
-    value to the object's type, `_Bool` by comparison with zero, every other integer type modulo 2^N). -/
+    enumerator (`int val`), array bound (`array_of(int len)`), bit-field width, array designator bounds, initializer-element
+    counter (all `int`: exact for every value an `int` holds), case labels (`long begin/end`: exact for every `long`),
+    `_Alignas(n)` / `aligned(n)` (the `int64_t` is validated first: the answer is the diagnostic or the `int` holding exactly
+    `n`, which then lies in 0 .. 2^28; every power of two up to 2^28 is accepted), and static initializers
+    (`write_gvar_data`: the object receives the C11 conversion of the value to the object's type, `_Bool` by comparison with
+    zero, every other integer type modulo 2^N; `storeGvarScalar` is the whole scalar path including `eval2(init->expr, &label)`
+    and the test for a floating initializer of an unsigned 8-byte object; floating initializers and floating objects are
+    in Props/C07Float.lean). -/
 theorem C07_consumers :
     (∀ v : Int, ITy.inRange .i32 v = true →
         (store_enum_specifier_val (BitVec.ofInt 64 v)).toInt = v ∧
         (store_array_dimensions_array_of_len (BitVec.ofInt 64 v)).toInt = v ∧
         (store_struct_members_mem_bit_width (BitVec.ofInt 64 v)).toInt = v ∧
-        (store_declspec_align (BitVec.ofInt 64 v)).toInt = v ∧
-        (store_attribute_list_ty_align (BitVec.ofInt 64 v)).toInt = v ∧
         (store_array_designator_begin (BitVec.ofInt 64 v)).toInt = v ∧
         (store_array_designator_end (BitVec.ofInt 64 v)).toInt = v ∧
         (store_count_array_init_elements_i (BitVec.ofInt 64 v)).toInt = v) ∧
     (∀ v : Int, ITy.inRange .i64 v = true →
         (store_stmt_begin (BitVec.ofInt 64 v)).toInt = v ∧ (store_stmt_end (BitVec.ofInt 64 v)).toInt = v) ∧
+    (∀ v : BitVec 64, AlignStored v (store_declspec_align .wrapping v) ∧ AlignStored v (store_attribute_list_ty_align .wrapping v)) ∧
+    (∀ k ∈ List.range 29,
+        store_declspec_align .wrapping (BitVec.ofNat 64 (2 ^ k)) = .ok (BitVec.ofNat 32 (2 ^ k)) ∧
+        store_attribute_list_ty_align .wrapping (BitVec.ofNat 64 (2 ^ k)) = .ok (BitVec.ofNat 32 (2 ^ k))) ∧
     (∀ (fp : FpEnv) (t : ITy) (e : CExpr) (v : Int), Spec.Const.eval e = some v →
-        storeGvar fp (descr t) (elabE e) (BitVec.ofInt 64 v) = .ok (objBits t (t.convert v))) := by
-  refine ⟨fun v h => ?_, fun v h => ⟨store_long v h, store_long v h⟩, fun fp t e v h => store_gvar fp t e v (fold_main fp e v h)⟩
+        storeGvar .wrapping fp (descr t) (elabE e) (BitVec.ofInt 64 v) = .ok (objBits t (t.convert v)) ∧
+        storeGvarScalar .wrapping fp (descr t) (elabE e) = .ok (objBits t (t.convert v))) := by
+  refine ⟨fun v h => ?_, fun v h => ⟨store_long v h, store_long v h⟩, fun v => ⟨store_declspec_exact v, store_attribute_exact v⟩,
+    store_align_pow2, fun fp t e v h => ⟨store_gvar fp t e v (fold_main fp e v h), store_gvar_scalar fp t e v (fold_main fp e v h)⟩⟩
   have := store_int v h
-  exact ⟨this, this, this, this, this, this, this, this⟩
+  exact ⟨this, this, this, this, this, this⟩
 
-/-- `static _Bool b = 256;` stores 1, `static unsigned char c = 300;` stores 44 (kernel-evaluated instances) -/
-example : storeGvar noFp (descr .bool) (elabE (.lit .i32 256)) (BitVec.ofInt 64 256) = .ok 1#64 := by decide
-example : storeGvar noFp (descr .u8) (elabE (.lit .i32 300)) (BitVec.ofInt 64 300) = .ok 44#64 := by decide
+/-- `static _Bool b = 256;` stores 1, `static unsigned char c = 300;` stores 44, `_Alignas(3)` is diagnosed (kernel-evaluated) -/
+example : storeGvar .wrapping noFp (descr .bool) (elabE (.lit .i32 256)) (BitVec.ofInt 64 256) = .ok 1#64 := by decide
+example : storeGvar .wrapping noFp (descr .u8) (elabE (.lit .i32 300)) (BitVec.ofInt 64 300) = .ok 44#64 := by decide
+example : store_declspec_align .wrapping 3#64 = .error (.diag "alignment must be a power of two no larger than 2^28") := by decide
 
 end ChibiVerif.Props.C07
